@@ -67,8 +67,8 @@ M = [
      "\t\t\t\tremaining := make([]*Subscription[T], 0, len(subscribers)-1)\n\t\t\t\tremaining = append(remaining, subscribers[:i]...)\n\t\t\t\tremaining = append(remaining, subscribers[i+1:]...)\n\t\t\t\tpublisherSelf.subscribers = remaining",
      "\t\t\t\tpublisherSelf.subscribers = append(subscribers[:i], subscribers[i+1:]...)"),
     ("C10", "publish-snapshot-without-lock", "publisher.go",
-     "\tpublisherSelf.doSubscribeSafe(func() {\n\t\tsubscribers = publisherSelf.subscribers\n\t})\n\n\tfor _, s := range subscribers {",
-     "\tsubscribers = publisherSelf.subscribers\n\n\tfor i := 0; i < len(publisherSelf.subscribers); i++ {\n\t\ts := publisherSelf.subscribers[i]\n\t\t_ = subscribers"),
+     "\tpublisherSelf.doSubscribeSafe(func() {\n\t\tsubscribers = publisherSelf.subscribers\n\t})\n\n\tfor _, s := range subscribers {\n\t\t// Each (possibly posted) delivery needs its own subscription variable\n\t\ts := s\n",
+     "\tsubscribers = publisherSelf.subscribers\n\n\tfor i := 0; i < len(publisherSelf.subscribers); i++ {\n\t\ts := publisherSelf.subscribers[i]\n\t\t_ = subscribers\n"),
     ("C10", "shared-loop-variable", "publisher.go",
      "\t\t// Each (possibly posted) delivery needs its own subscription variable\n\t\ts := s\n",
      ""),
